@@ -16,7 +16,7 @@ INFO = {
     "characters (SP/HT/LF/CR) at every position of multi-line and erroneous seeds - asserting, whenever it raises, that the error carries an offset inside the text and that str(error) ends with "
     "exactly that offset's ', line L, column C'.",
     "functions": ["tokens.Token.position", "exceptions.JSONPathError.__str__", "lex.Lexer.error/emit/backup/ignore_whitespace", "lex.tokenize", "tokens.TokenStream.expect*", "parse.Parser.* (raise sites)", "environment.check_well_typedness (raise sites)"],
-    "bounds": {"quick": {"unit": "text <= 4 chars", "holes": "k=1 (any char) at every position of the valid seeds; k=1 and k=2 blanks at every position of the erroneous seeds"},
+    "bounds": {"quick": {"unit": "text <= 4 chars", "holes": "k=1 (any char) at every position of the valid seeds; k=1 and k=2 blanks at every position of the erroneous seeds; k=1 (any char) at every position of 16 escape-error seeds whose literal content changes length on decoding"},
                "thorough": {"unit": "text <= 5 chars", "holes": "k=2 (any char) at every position; k=2 blanks; k=3 blanks in erroneous seeds"}},
     "models": ["as C04"],
     "outside": ["texts further than k characters from a seed", "CR is an ordinary character for line counting (the convention the library and its tests use: lines are separated by LF)"],
@@ -52,6 +52,14 @@ BAD_SEEDS = [
     "$[?true]",
     "$[?@.a == (1)]",
 ]
+
+
+# erroneous escapes behind content whose decoded / re-escaped length differs from its length in the query (added after seeded
+# change C19-r3: an offset taken in the re-escaped copy of a single-quoted literal ran past the end of the query once eight or
+# more double quotes preceded the bad escape)
+_BAD_TAILS = ["\\uD83D", "\\uD83D\\u0041", "\\uDC00", "\\uD83", "\\q"]
+ESCAPE_BAD_SEEDS = (["$['" + '"' * 10 + t + "']" for t in _BAD_TAILS] + ['$["' + "'" * 10 + t + '"]' for t in _BAD_TAILS]
+                    + ["$[?@.a ==\n'" + '"' * 10 + t + "'\n]" for t in _BAD_TAILS[:2]] + ["$['" + "\\'" * 5 + t + "']" for t in _BAD_TAILS[:2]])
 
 
 def ch_setup() -> None:
@@ -106,4 +114,6 @@ def obligations(tier: str):
                 obls.append(holes.obligation("bad%04d.b3" % j, pre, suf, 3, "position", 600, alphabet=BLANKS))
     for j, (pre, suf) in enumerate(holes.hole_instances(BAD_SEEDS, replace=(1,))):
         obls.append(holes.obligation("bad%04d.k1" % j, pre, suf, 1, "position", 120))
+    for j, (pre, suf) in enumerate(holes.hole_instances(ESCAPE_BAD_SEEDS, replace=(1,))):
+        obls.append(holes.obligation("esc%04d.k1" % j, pre, suf, 1, "position", 120))
     return obls
